@@ -295,9 +295,14 @@ def conventional(rng, name, feat=None):
         o.field("next_page_token", "string")
         if rng.random() < 0.4:
             o.field("unreachable", "string", repeated=True)
+        # explicit routing on a paginated method (google.storage.v2.ListObjects has this shape)
+        routed = rng.random() < 0.35
+        if routed:
+            tags.add("explicit-routing-on-paged")
         s.rpc(f"List{R}s", P + f".List{R}sRequest", P + f".List{R}sResponse",
               http={"get": f"/{uver}/{{parent=projects/*}}/{coll}" if child else f"/{uver}/{coll}"},
-              sigs=["parent"] if child else [])
+              sigs=["parent"] if child else [],
+              routing=([("parent", rng.choice(["", "{project=projects/*}", "{parent=**}"]))] if child else [("filter", "{routing_id=*}")]) if routed else None)
         tags.add("paged")
         q = f.message(f"Create{R}Request")
         if child:
@@ -1363,6 +1368,27 @@ def lro_api(rng, name, broken=None):
             api.info.setdefault("lro", {})[f"Start{n}"] = {"response": wr, "metadata": wm, "qualified": [qual_r, qual_m]}
             tags.update([f"resp:{wr}:{'fq' if qual_r else 'rel'}", f"meta:{wm}:{'fq' if qual_m else 'rel'}"])
             n += 1
+    if rng.random() < 0.7:
+        # services with a single LRO whose operation_info type shares its simple name with another type the method refers to
+        # (a flattened field's local Status vs. google.rpc.Status as response; a local Date response vs. google.type.Date metadata)
+        st = f.message("Status")
+        st.field("name", "string")
+        st.field("percent", "int32")
+        vq = f.message("ValidateRequest")
+        vq.field("name", "string")
+        vq.field("expected", P + ".Status")
+        s2 = f.service("Auditor", host=f"{name}.googleapis.com")
+        s2.rpc("Validate", P + ".ValidateRequest", ".google.longrunning.Operation", http={"post": "/v1/{name=jobs/*}:validate"}, body="*",
+               sigs=["name,expected"], lro=("google.rpc.Status", rng.choice(["SameMeta", pkg + ".SameMeta"])))
+        api.info.setdefault("lro", {})["Validate"] = {"response": "dependency-namesake-of-flattened-type", "metadata": "same", "qualified": [True, False]}
+        dt = f.message("Date")
+        dt.field("name", "string")
+        dt.field("note", "string")
+        s3 = f.service("Dater", host=f"{name}.googleapis.com")
+        s3.rpc("Stamp", P + ".StartRequest", ".google.longrunning.Operation", http={"post": "/v1/{name=jobs/*}:stamp"}, body="*",
+               lro=(rng.choice(["Date", pkg + ".Date"]), "google.type.Date"))
+        api.info.setdefault("lro", {})["Stamp"] = {"response": "same", "metadata": "dependency-namesake-of-response", "qualified": [False, True]}
+        tags.add("lro-type-namesakes")
     # Operation-returning method without the annotation: raw Operation
     s.rpc("RawOp", P + ".StartRequest", ".google.longrunning.Operation", http={"post": "/v1/{name=jobs/*}:raw"}, body="*")
     s.rpc("Plain", P + ".StartRequest", P + ".SameResult", http={"get": "/v1/{name=jobs/*}"})
@@ -1573,8 +1599,28 @@ def respath_api(rng, name, npat=36):
     api.add(f)
     q = f.message("Req")
     q.field("name", "string")
+    # where a resource is visible from: the request itself, messages nested 1..3 hops below it, or below the response
+    holders = [q]
+    prev = q
+    for d in range(1, 4):
+        h = f.message(f"ReqLevel{d}")
+        h.field("label", "string")
+        prev.field(f"level{d}", P + f".ReqLevel{d}")
+        holders.append(h)
+        prev = h
+    o = f.message("Reply")
+    o.field("ok", "bool")
+    prev = o
+    for d in range(1, 3):
+        h = f.message(f"ReplyLevel{d}")
+        h.field("label", "string")
+        prev.field(f"level{d}", P + f".ReplyLevel{d}", repeated=d == 2)
+        holders.append(h)
+        prev = h
+    top = q
     res = []
     for i in range(npat):
+        q = rng.choice([top, top] + holders)
         pat, used, form = rand_pattern(rng)
         tn = f"R{chr(97 + i // 26)}{chr(97 + i % 26)}Thing"
         rtype = f"{name}.googleapis.com/{tn}"
@@ -1594,16 +1640,15 @@ def respath_api(rng, name, npat=36):
                 q.field(f"ref_{i}", "string", ref=rtype)
             else:
                 q.field(f"ref_{i}", "string", child_ref=rtype)
-        res.append({"type": rtype, "short": tn, "pattern": pat, "vars": used, "form": form, "how": how})
-        tags.update(["form:" + form, "how:" + how])
+        res.append({"type": rtype, "short": tn, "pattern": pat, "vars": used, "form": form, "how": how, "held_by": q.pb.name})
+        tags.update(["form:" + form, "how:" + how, "held-by:" + q.pb.name])
+    q = top
     # wildcard pattern
     m = f.message("WildThing")
     m.resource(f"{name}.googleapis.com/WildThing", "*")
     m.field("name", "string")
     q.field("wild", P + ".WildThing")
     res.append({"type": f"{name}.googleapis.com/WildThing", "short": "WildThing", "pattern": "*", "vars": [], "form": "wildcard", "how": "message"})
-    o = f.message("Reply")
-    o.field("ok", "bool")
     s = f.service("Paths", host=f"{name}.googleapis.com")
     s.rpc("Do", P + ".Req", P + ".Reply")
     api.info["resources"] = res
@@ -1859,6 +1904,9 @@ def selective_api(rng, name):
     q.field("tree", P + ".Tree")
     q.field("kind", "enum:" + P + ".Outer.Kind")
     s2.rpc("Grow", P + ".GrowRequest", P + ".Tree", http={"post": "/v1/grow"}, body="*")
+    # a service whose name starts with another service's name, sharing an RPC name with it
+    s3 = f.service("LibraryAdmin", host=f"{name}.googleapis.com")
+    s3.rpc("GetShelf", P + ".GetShelfRequest", P + ".Shelf", http={"get": "/v1/admin/{name=shelves/*}"}, sigs=["name"])
     # an LRO whose response lives in a dependency and whose metadata type nothing else reaches
     pm = fo.message("PurgeMeta")
     pm.field("purged", "int32")
@@ -1932,11 +1980,16 @@ def sample_api(rng, name, transport="grpc"):
             q.field("pick_num", "int32", oneof="choice")
             q.field("pick_hue", color, oneof="choice")
         q.field("note", "string")
+        q.field("detail", P + ".Spec")
         o = f.message(f"Do{i}Response")
         o.field("ok", "bool")
         form = rng.choice(["unary", "unary", "server", "lro"])
         if form == "unary":
-            svc.rpc(f"Do{i}", P + f".Do{i}Request", P + f".Do{i}Response", http={"post": f"/v1/{{name=widgets/*}}:do{i}"}, body="*", sigs=["name"])
+            # signatures with dotted (nested) paths and reserved-word leaves: the client's keyword is the leaf name
+            sig = rng.choice([["name"], ["name,detail.code"], ["name,note", "name,detail.comment,note"], ["name,detail.hue"], ["name"]])
+            if any("." in x for x in sig):
+                tags.add("sample-dotted-signature")
+            svc.rpc(f"Do{i}", P + f".Do{i}Request", P + f".Do{i}Response", http={"post": f"/v1/{{name=widgets/*}}:do{i}"}, body="*", sigs=sig)
         elif form == "server":
             svc.rpc(f"Do{i}", P + f".Do{i}Request", P + f".Do{i}Response", ss=True, http={"post": f"/v1/{{name=widgets/*}}:do{i}"}, body="*")
         else:
